@@ -128,6 +128,12 @@ def evaluate(c, fn, names, shapes, combo):
             return 'skip', None
     except Exception as e:
         return 'skip', f'requires raised {type(e).__name__}'
+    if c.globals:
+        import importlib as _il
+        m = _il.import_module(c.target.split(':')[0])
+        for g in c.globals:
+            if g not in env and hasattr(m, g.split('.')[0]):
+                env[g] = getattr(m, g)
     old = S.Old({n: snapshot(v) for n, v in env.items()})
     pnames = [n for n in names if n in c.params]
     args = [env[n] for n in pnames]
